@@ -96,10 +96,14 @@ Proof.
         [apply N.leb_le in X; apply N.leb_gt in Y; lia | apply N.leb_gt in X; apply N.leb_le in Y; lia].
 Qed.
 
+Lemma bool_list_eqb_refl l : list_eqb Bool.eqb l l = true.
+Proof. induction l as [|b l IH]; [reflexivity|]. cbn. rewrite IH. destruct b; reflexivity. Qed.
+
 Theorem shard_pred (H : str -> N) by_ set n ls tbl : (0 < n)%N ->
-  pred_ok (CShard by_ set n ls tbl (map (fun i => matches H by_ set n (N.of_nat i) ls) (seq 0 (N.to_nat n)))) = true.
+  let m := map (fun i => matches H by_ set n (N.of_nat i) ls) (seq 0 (N.to_nat n)) in
+  pred_ok (CShard by_ set n ls tbl m m) = true.
 Proof.
-  intro Hn. cbn [pred_ok]. unfold matches. rewrite count_eq_seq.
+  intro Hn. cbn zeta. cbn [pred_ok]. rewrite bool_list_eqb_refl, andb_true_r. unfold matches. rewrite count_eq_seq.
   assert (A : (N.of_nat 0 <=? shard_of H by_ set n ls)%N = true) by (apply N.leb_le; lia).
   assert (B : (shard_of H by_ set n ls <? N.of_nat (0 + N.to_nat n))%N = true).
   { apply N.ltb_lt. cbn [plus]. rewrite N2Nat.id. unfold shard_of. apply N.mod_lt. lia. }
